@@ -435,11 +435,35 @@ func (p *program) compile(i int, asInit bool, rt int) []byte {
 			}
 			terminated = true
 		case "etx":
+			// D >= 11: every argument drawn independently from the full alphabets.  Otherwise the arguments are
+			// well-formed and at most one of them is spoiled, so that each exit of the operation - the successful
+			// one included - is reached often.
 			dest := etxDests[o.A%len(etxDests)]
 			val := etxValues[o.B%len(etxValues)]
 			gl := etxGasLimits[o.C%len(etxGasLimits)]
 			tip, feeCap := etxFees[o.D%len(etxFees)], etxFees[(o.D/len(etxFees)+o.E)%len(etxFees)]
 			bi := o.E % len(aclBlobs)
+			if o.D < 11 {
+				dest = []common.Address{extQuaiZ1, extQuaiZ2, extQuaiR1, extQi}[o.A%4]
+				val = []*big.Int{big.NewInt(1000), big0, big.NewInt(1), e18, new(big.Int).Mul(big.NewInt(20), e18)}[o.B%5]
+				gl = []*big.Int{big.NewInt(21000), big.NewInt(100000), big.NewInt(42000)}[o.C%3]
+				tip, feeCap = []*big.Int{big0, big.NewInt(1), big.NewInt(2)}[o.D%3], []*big.Int{big.NewInt(1), big.NewInt(1e9), big0}[o.D/3%3]
+				bi = o.E % 3
+				switch o.E / 3 % 11 {
+				case 5:
+					dest = []common.Address{localQi, recvFunded, zeroAddr}[o.A%3]
+				case 6:
+					gl = []*big.Int{big0, big.NewInt(20999), two64, new(big.Int).Lsh(big.NewInt(1), 200), new(big.Int).Sub(two64, big.NewInt(1))}[o.C%5]
+				case 7:
+					tip = []*big.Int{two255, max256}[o.C%2]
+				case 8:
+					bi = 3 + o.A%3
+				case 9:
+					val = []*big.Int{new(big.Int).Mul(big.NewInt(1e6), e18), nil, max256, new(big.Int).Sub(two256, big.NewInt(42000))}[o.B%4]
+				case 10:
+					val, tip, feeCap = big0, big0, big0
+				}
+			}
 			note("ETX dest=%x value=%v gaslimit=%v tip=%v cap=%v acl=%s", dest.Bytes()[:2], val, gl, tip, feeCap, aclBlobNames[bi])
 			a.storeBytes(0x200, aclBlobs[bi])
 			a.pushU(canary)
@@ -463,6 +487,23 @@ func (p *program) compile(i int, asInit bool, rt int) []byte {
 			dest := convDests[o.A%len(convDests)]
 			val := etxValues[(o.B+4)%len(etxValues)]
 			gl := etxGasLimits[o.C%len(etxGasLimits)]
+			if o.D < 11 { // as for ETX: well-formed arguments, at most one spoiled
+				dest = []common.Address{localQi, localQi2}[o.A%2]
+				val = []*big.Int{minConv, new(big.Int).Mul(big.NewInt(20), e18), new(big.Int).Mul(big.NewInt(11), e18)}[o.B%3]
+				gl = []*big.Int{big.NewInt(21000), big.NewInt(42000), big.NewInt(100000)}[o.C%3]
+				switch o.E / 3 % 9 {
+				case 4:
+					dest = []common.Address{extQi, recvFunded, extQuaiZ1}[o.A%3]
+				case 5:
+					val = []*big.Int{new(big.Int).Sub(minConv, big.NewInt(1)), big0, e18}[o.B%3]
+				case 6:
+					gl = []*big.Int{big0, big.NewInt(20999), two64, new(big.Int).Lsh(big.NewInt(1), 200)}[o.C%4]
+				case 7:
+					val = []*big.Int{new(big.Int).Mul(big.NewInt(1e6), e18), nil, max256, new(big.Int).Sub(two256, big.NewInt(42000))}[o.B%4]
+				case 8:
+					gl = new(big.Int).Sub(two64, big.NewInt(1))
+				}
+			}
 			note("CONVERT dest=%x value=%v gaslimit=%v", dest.Bytes()[:2], val, gl)
 			a.pushU(canary)
 			a.push(gl)
